@@ -94,3 +94,42 @@ silent(P, "isingxx-generator-split-statements",
              "        word = PauliX(wires=self.wires[0]) @ PauliX(wires=self.wires[1])\n        return qp.Hamiltonian([-1 / 2], [word])")])
 silent(P, "sqisw-alias-replaced-by-class-name",
        [(AT, '        "SQISW",\n', '        "SISWAP",\n')])
+
+# ---- R-C07-symm ---------------------------------------------------------------------------------
+SYMM = "R-C07-symm"
+_TAIL = '        "IsingZZ",\n        "PSWAP",\n    ]\n)'
+# independent seeded change C07/patch2: diag(1, e^{i phi}, 1, 1) is not diag(1, 1, e^{i phi}, 1)
+fire(P, "cphaseshift10-listed-wire-symmetric",
+     (AT, _TAIL, '        "IsingZZ",\n        "PSWAP",\n        "ControlledPhaseShift",\n        "CPhaseShift00",\n        "CPhaseShift10",\n    ]\n)'),
+     SYMM, "symmetric_over_all_wires[CPhaseShift10]")
+fire(P, "cphaseshift01-listed-wire-symmetric",
+     (AT, _TAIL, '        "IsingZZ",\n        "CPhaseShift01",\n        "PSWAP",\n    ]\n)'),
+     SYMM, "symmetric_over_all_wires[CPhaseShift01]")
+fire(P, "crx-listed-wire-symmetric",
+     (AT, _TAIL, '        "IsingZZ",\n        "PSWAP",\n        "CRX",\n    ]\n)'),
+     SYMM, "symmetric_over_all_wires[CRX]")
+fire(P, "singleexcitation-listed-wire-symmetric",
+     (AT, _TAIL, '        "IsingZZ",\n        "PSWAP",\n        "SingleExcitation",\n    ]\n)'),
+     SYMM, "symmetric_over_all_wires[SingleExcitation]")
+fire(P, "toffoli-listed-symmetric-over-all-wires",
+     (AT, _TAIL, '        "IsingZZ",\n        "PSWAP",\n        "Toffoli",\n    ]\n)'),
+     SYMM, "symmetric_over_all_wires[Toffoli]")
+# code side: the X block moved to the control pattern |10>: no longer symmetric in the two controls
+_TOF = ("                [0, 0, 0, 0, 1, 0, 0, 0],\n                [0, 0, 0, 0, 0, 1, 0, 0],\n"
+        "                [0, 0, 0, 0, 0, 0, 0, 1],\n                [0, 0, 0, 0, 0, 0, 1, 0],\n")
+_TOF_BAD = ("                [0, 0, 0, 0, 0, 1, 0, 0],\n                [0, 0, 0, 0, 1, 0, 0, 0],\n"
+            "                [0, 0, 0, 0, 0, 0, 1, 0],\n                [0, 0, 0, 0, 0, 0, 0, 1],\n")
+fire(P, "toffoli-matrix-controlled-on-10",
+     (CO, _TOF, _TOF_BAD),
+     SYMM, "symmetric_over_control_wires[Toffoli]")
+fire(P, "pswap-matrix-phase-on-one-off-diagonal-only",
+     (MQ, "                stack_last([zero, zero, e, zero]),\n                stack_last([zero, e, zero, zero]),",
+          "                stack_last([zero, zero, e, zero]),\n                stack_last([zero, one, zero, zero]),"),
+     SYMM, "symmetric_over_all_wires[PSWAP]")
+
+silent(P, "symmetric-gates-added-to-wire-symmetric-set",
+       [(AT, _TAIL, '        "IsingZZ",\n        "PSWAP",\n        "FermionicSWAP",\n        "ControlledPhaseShift",\n        "CPhaseShift00",\n    ]\n)')])
+silent(P, "wire-symmetric-set-reordered",
+       [(AT, '        "CZ",\n        "CCZ",\n        "SWAP",\n        "IsingXX",\n', '        "IsingXX",\n        "SWAP",\n        "CCZ",\n        "CZ",\n')])
+silent(P, "cswap-single-control-listed-control-symmetric",
+       [(AT, 'symmetric_over_control_wires = Attribute(["CCZ", "Toffoli"])', 'symmetric_over_control_wires = Attribute(["Toffoli", "CSWAP", "CCZ"])')])
